@@ -14,6 +14,8 @@ from argparse import Namespace as ArgsType
 from pathlib import Path
 from typing import Any
 
+from pydantic import ValidationError
+
 import kskm.common
 import kskm.ksr
 import kskm.misc
@@ -186,6 +188,9 @@ def ksrsigner(
         except FileNotFoundError:
             logging.critical("Configuration file %s not found", args.config)
             return False
+        except ValidationError as exc:
+            # schema validation errors in the configuration are configuration errors
+            raise ConfigurationError(str(exc)) from exc
 
     #
     # Prepare schema
